@@ -208,7 +208,9 @@ func runC15(w *mon.W) {
 	// symbol, long s, sharp s), NFC vs NFD, full-width forms, percent-encoding, zero-width
 	// joiner, trailing dot / space - all ordered pairs of commands of <=2 such segments
 	{
-		segs := []string{"σ", "ς", "μ", "µ", "θ", "ϑ", "s", "ſ", "ß", "ss", "é", "e\u0301", "a", "ａ", "%61", "a\u200d", "a.", "a ", "k", "\u0138", ".", "..", "~"}
+		segs := []string{"σ", "ς", "μ", "µ", "θ", "ϑ", "s", "ſ", "ß", "ss", "é", "e\u0301", "a", "ａ", "%61", "a\u200d", "a.", "a ", "k", "\u0138", ".", "..", "~",
+			// wildcards of other systems and of earlier UCAN versions are ordinary segments
+			"*", "**", "a*", "?"}
 		u := []string{"/"}
 		for _, x := range segs {
 			u = append(u, "/"+x)
